@@ -59,6 +59,10 @@ CLAIMED = {
    text='Coq theorems: norm conservation of a projector-splitting sub-step (orthonormal frame, unitary coefficient update), energy conservation when the update commutes with the effective operator, the padded-factor conjugation q~^H M q~ of the backward sub-steps equals the model index formula, trajectory shape. tdvp1site/tdvp2site are tied to /repo by differential execution with expm_multiply, qr, rq and svd answered from a tape (every effective operator, vector and state compared); side check: exactness against scipy.linalg.expm(-itH)x0 at maximal ranks in arbitrary gauge, norm/energy conservation at low rank, Krylov with full dimension, inputs unchanged and trajectory shape for all four drivers.',
    note='PARTIAL: exactness at maximal ranks and Lanczos exactness need the matrix exponential (oracle) and are decided by correspondence + float side check, not by a theorem; hypotheses "orthonormal frame / unitary commuting propagator" are the specs of QR/RQ/SVD/expm. Known findings F09/F09b: ode.tdvp (hybrid) raises IndexError at maximal ranks / leaves order-1 states unevolved. Trusted: Coq kernel, harness tapes.',
    technique='Coq proofs (conservation algebra, projected operators) + oracle-tape correspondence (expm/qr/rq/svd) + dense expm side check', design='6 C11'),
+ 'C13': dict(
+   text='Coq theorems (all sizes, all rates, any commutative ring with involution): a SLIM pattern whose single-site and left-coupling blocks have vanishing column sums has vanishing column sums (open or cyclic); signaling_cascade(d) and two_step_destruction have vanishing column sums including their boundary corrections; ising(d,J,h) equals the energy formula; exciton_chain is the cyclic nearest-neighbour sum of its blocks. The models are tied to /repo by exact core-by-core correspondence (integer parameters; signaling_cascade through its own source re-executed with cell size, rates and reciprocal table abstracted, the abstraction validated bit for bit on every run); side check: every bundled model against an independent dense assembly (generators incl. non-negative off-diagonals, circuit unitarity and semantics, QFT = bit-reversed DFT, FPU/Kuramoto right-hand sides, fractals = Kronecker powers).',
+   note='PARTIAL: off-diagonal non-negativity (no order on the scalar ring), co_oxidation/toll_station beyond the C12 pattern theorem, unitarity of the circuit models, QFT = DFT, FPU/Kuramoto and the fractals are decided by the side check, not by a theorem. Trusted: Coq kernel, harness, the literal-abstracting re-execution.',
+   technique='Coq proofs (column-sum induction over the SLIM pattern, explicit cores) + exact core correspondence + dense side check', design='6 C13'),
 }
 NOT_YET = {}
 ALL = ['C%02d' % i for i in range(1, 21)]
